@@ -107,7 +107,7 @@ class Worker:
         self.apply(m)
         try:
             env = dict(os.environ, PYTHONPATH=self.dir, PYTHONDONTWRITEBYTECODE="1")
-            rc, out = sh("/venv/bin/python -m pytest -q -x -p no:cacheprovider 2>&1 | tail -2", cwd=self.dir, env=env, timeout=120)
+            rc, out = sh("timeout -k 5 90 /venv/bin/python -m pytest -q -x -p no:cacheprovider 2>&1 | tail -2", cwd=self.dir, env=env, timeout=120)
             return " passed" in out and "failed" not in out and "error" not in out.lower()
         finally:
             self.restore()
@@ -119,7 +119,7 @@ class Worker:
             env = dict(os.environ, VERIF_REPO=self.dir, VERIF_OUT=self.out, VERIF_NO_BUILD="1", VERIF_JOBS="4",
                        PYTHONDONTWRITEBYTECODE="1")
             for pr in props:
-                rc, out = sh(f"./check {pr} --tier quick", cwd=VERIF, env=env, timeout=900)
+                rc, out = sh(f"timeout -k 5 800 ./check {pr} --tier quick", cwd=VERIF, env=env, timeout=900)
                 summ = [l for l in out.splitlines() if l.startswith(pr + " ")][-1:]
                 res[pr] = {"exit": rc, "summary": summ[0][:160] if summ else out[-200:]}
                 if rc == 1:
@@ -136,6 +136,8 @@ def main():
     ap.add_argument("--max-survivors", type=int, default=400)
     ap.add_argument("--files", default="")
     ap.add_argument("--seed", type=int, default=1)
+    ap.add_argument("--exclude", default="", help="results.json of an earlier sweep: skip the mutants it already ran")
+    ap.add_argument("--skip-files", default="", help="comma-separated path fragments to leave out (e.g. from_dom,to_dom)")
     a = ap.parse_args()
     os.makedirs(a.out, exist_ok=True)
     files = a.files.split(",") if a.files else list(FILES)
@@ -165,6 +167,14 @@ def main():
         survivors = [m for m, ok in zip(muts, flags) if ok]
         json.dump(survivors, open(surv_path, "w"), indent=1)
         print(f"{len(survivors)} of {len(muts)} mutants pass the 442 tests", flush=True)
+    if a.exclude:
+        done = {(m["file"], m["line"], m["col"], m["new"]) for m in json.load(open(a.exclude))}
+        survivors = [m for m in survivors if (m["file"], m["line"], m["col"], m["new"]) not in done]
+        print(f"{len(survivors)} survivors not in {a.exclude}", flush=True)
+    if a.skip_files:
+        frags = a.skip_files.split(",")
+        survivors = [m for m in survivors if not any(f in m["file"] for f in frags)]
+        print(f"{len(survivors)} after leaving out {frags}", flush=True)
     if len(survivors) > a.max_survivors:
         rng.shuffle(survivors)
         survivors = survivors[: a.max_survivors]
